@@ -200,6 +200,9 @@ def aliasOf (a : Annot) : AliasRes :=
   | Option.none => .none
   | some (_, k, v) => if k = .str then .ok v else .bad
 
+/-- `getPathAliasOrName`: the `name` property when it is a string (even an empty one), else the annotation's value -/
+def refName (a : Annot) : String := match aliasOf a with | .ok v => v | _ => a.value
+
 def isBindingAnnot (n : String) : Bool := ["Query", "Header", "Body", "FormField"].contains n
 
 /-- `ctrlRoute` = the controller's own `@Route`: the route a method serves starts with that prefix, and the
@@ -218,7 +221,7 @@ def linkValidate (ctrlRoute : String) (m : Method) : List Diag :=
   let d1 : List Diag :=
     if !badAlias.isEmpty then badAlias.map fun _ => err "annotation-properties-invalid-value-for-key"
     else
-      let referenced := pathAttrs.map fun a => match aliasOf a with | .ok v => v | _ => a.value
+      let referenced := pathAttrs.map refName
       let rec goUrl (ps : List String) (seen : List String) : List Diag :=
         match ps with
         | [] => []
